@@ -435,6 +435,11 @@ def ir_eval(e, env):
     if e.is_NumberSymbol:
         return float(e)
     f = e.func
+    if isinstance(e, sympy.core.function.AppliedUndef) and str(e) in env:
+        v = env[str(e)]  # amount of a compartment, A_X(t)
+        if v is None:
+            raise IRUndefined(str(e))
+        return v
     try:
         if f is sympy.Add:
             r = 0.0
@@ -1079,4 +1084,1584 @@ def bounded_abbreviated_code_replay(rp):
     fl = [(c, d) for c, d in res[0][2] if case.get('clause') in (None, c)]
     if fl:
         return (False, '; '.join(f'{c}: {d}' for c, d in fl))
+    return (True, 'ok')
+
+
+# --------------------------------------------------------------------------------------------------
+# (2) bounded_omega_theta_parse
+# --------------------------------------------------------------------------------------------------
+
+FID_THETA = 'src/pharmpy/model/external/nonmem/parsing.py:parse_thetas'
+FID_THETA_REC = 'src/pharmpy/model/external/nonmem/records/theta_record.py:ThetaRecord'
+FID_OMEGA_REC = 'src/pharmpy/model/external/nonmem/records/omega_record.py:OmegaRecord.parse'
+FID_OMEGA_PARAMS = 'src/pharmpy/model/external/nonmem/parsing.py:parameters_from_blocks'
+FID_RVS = 'src/pharmpy/model/external/nonmem/parsing.py:rvs_from_blocks'
+
+_INF = math.inf
+
+
+def _num(text):
+    t = text.upper()
+    if t in ('INF', '1000000'):
+        return _INF
+    if t in ('-INF', '-1000000'):
+        return -_INF
+    return float(t)
+
+
+def gen_theta_items(tier):
+    """-> list of (text, [(init, lower, upper, fix), ...]) : every documented $THETA form with an
+    explicit initial estimate (NM-TRAN help, $THETA)"""
+    inits = ['2', '-0.5', '1E-2', '.3'] + (['+4', '2.', '2.5E+1'] if tier == 'thorough' else [])
+    lows = ['-INF', '-1000000', '0', '-3.5']
+    ups = ['INF', '1000000', '10', '2.75']
+    items = []
+
+    def add(text, init, low, up, fix, n=1):
+        items.append((text, [(float(init), low, up, fix)] * n))
+
+    for i in inits:
+        add(i, i, -_INF, _INF, False)
+        add(f'{i} FIX', i, -_INF, _INF, True)
+        add(f'{i} FIXED', i, -_INF, _INF, True)
+        add(f'({i})', i, -_INF, _INF, False)
+        add(f'({i} FIX)', i, -_INF, _INF, True)
+        add(f'({i}) FIX', i, -_INF, _INF, True)
+        add(f'({i})x2', i, -_INF, _INF, False, 2)
+        add(f'({i} FIX)x3', i, -_INF, _INF, True, 3)
+        # all bounds equal to the initial estimate: fixed (with or without the keyword)
+        add(f'({i},{i},{i})', i, float(i), float(i), True)
+        add(f'({i},{i},{i} FIX)', i, float(i), float(i), True)
+        add(f'({i},{i} FIXED)', i, float(i), _INF, True)
+        for lo in lows:
+            if not _num(lo) < float(i):
+                continue
+            add(f'({lo},{i})', i, _num(lo), _INF, False)
+            add(f'( {lo} , {i} )', i, _num(lo), _INF, False)
+            add(f'({lo},{i}) FIX', i, _num(lo), _INF, True)
+            add(f'({lo},{i})x2', i, _num(lo), _INF, False, 2)
+            add(f'({lo},{i},)', i, _num(lo), _INF, False)
+            for up in ups:
+                if not float(i) < _num(up):
+                    continue
+                add(f'({lo},{i},{up})', i, _num(lo), _num(up), False)
+                add(f'({lo}, {i}, {up}) FIXED', i, _num(lo), _num(up), True)
+                add(f'({lo},{i},{up})x2', i, _num(lo), _num(up), False, 2)
+    return items
+
+
+def gen_theta_cases(tier):
+    """-> list of (records text, expected thetas).  Items are packed 3 per record, 2 records per case
+    (so every item also appears next to others and in a second record); plus all ordered pairs of a
+    small pool within one record (keyword FIX / xn must attach to the right theta)."""
+    items = gen_theta_items(tier)
+    cases = []
+    for k in range(0, len(items), 6):
+        chunk = items[k : k + 6]
+        recs = []
+        exp = []
+        for r in (chunk[:3], chunk[3:]):
+            if r:
+                recs.append('$THETA ' + ' '.join(t for t, _ in r))
+                for _, e in r:
+                    exp.extend(e)
+        cases.append(('\n'.join(recs), exp, chunk))
+    pool = [
+        ('2', [(2.0, -_INF, _INF, False)]),
+        ('3 FIX', [(3.0, -_INF, _INF, True)]),
+        ('(0,4)', [(4.0, 0.0, _INF, False)]),
+        ('(0,5,10)', [(5.0, 0.0, 10.0, False)]),
+        ('(6)x2', [(6.0, -_INF, _INF, False)] * 2),
+        ('(7 FIX)', [(7.0, -_INF, _INF, True)]),
+        ('(-INF,8,INF) FIX', [(8.0, -_INF, _INF, True)]),
+        ('(0,9)x2', [(9.0, 0.0, _INF, False)] * 2),
+    ]
+    for a, ea in pool:
+        for b, eb in pool:
+            cases.append((f'$THETA {a} {b}', ea + eb, [(a, ea), (b, eb)]))
+            cases.append((f'$THETA {a}\n  {b} ; 2nd\n', ea + eb, [(a, ea), (b, eb)]))
+    return cases
+
+
+def _sym_from_lower(nums, n):
+    import numpy as np
+
+    A = np.zeros((n, n))
+    k = 0
+    for i in range(n):
+        for j in range(i + 1):
+            A[i, j] = A[j, i] = nums[k]
+            k += 1
+    return A
+
+
+def ref_block_matrix(nums, n, mode):
+    """covariance matrix defined by the numbers of a BLOCK(n) record under the NM-TRAN options
+    mode: set of {'SD', 'CORR', 'CHOL'} (VARIANCE and COVARIANCE are the defaults)"""
+    import numpy as np
+
+    if 'CHOL' in mode:
+        L = np.zeros((n, n))
+        k = 0
+        for i in range(n):
+            for j in range(i + 1):
+                L[i, j] = nums[k]
+                k += 1
+        return L @ L.T
+    A = _sym_from_lower(nums, n)
+    sd = np.array([A[i, i] if 'SD' in mode else math.sqrt(A[i, i]) for i in range(n)])
+    C = np.zeros((n, n))
+    for i in range(n):
+        for j in range(n):
+            if i == j:
+                C[i, i] = sd[i] ** 2
+            elif 'CORR' in mode:
+                C[i, j] = A[i, j] * sd[i] * sd[j]
+            else:
+                C[i, j] = A[i, j]
+    return C
+
+
+_BLOCK_NUMS = {1: [0.3], 2: [0.8, -0.3, 0.7], 3: [0.8, 0.2, 0.7, -0.1, 0.3, 0.9]}
+_MODES = [
+    ('', ''), ('VARIANCE', 'VAR'), ('STANDARD', 'SD'), ('CORRELATION', 'CORR'),
+    ('STANDARD CORRELATION', 'SD CORR'), ('CORRELATION STANDARD', 'CORR SD'),
+    ('VARIANCE CORRELATION', 'VAR CORR'), ('VARIANCE COVARIANCE', 'VAR COV'),
+    ('STANDARD COVARIANCE', 'SD COV'), ('COVARIANCE', 'COV'), ('CHOLESKY', 'CHOL'),
+]
+
+
+def _mode_set(long):
+    m = set()
+    if 'STANDARD' in long:
+        m.add('SD')
+    if 'CORRELATION' in long:
+        m.add('CORR')
+    if 'CHOLESKY' in long:
+        m.add('CHOL')
+    return m
+
+
+def _fmt_rows(nums, n):
+    rows = []
+    k = 0
+    for i in range(n):
+        rows.append(' '.join(f'{x:g}' for x in nums[k : k + i + 1]))
+        k += i + 1
+    return rows
+
+
+def gen_cov_records(tier):
+    """-> list of (family, record body (without $OMEGA/$SIGMA), blocks)
+    blocks: list of {'cov': matrix, 'fix': bool} | {'same': m}"""
+    import numpy as np
+
+    recs = []
+
+    def diag(text, entries):
+        recs.append(('diagonal', text,
+                     [{'cov': np.array([[v]]), 'fix': f} for v, f in entries]))
+
+    diag('0.09', [(0.09, False)])
+    diag('0.09 FIX', [(0.09, True)])
+    diag('0.09 FIXED', [(0.09, True)])
+    diag('(0.09)', [(0.09, False)])
+    diag('(0.09 FIX)', [(0.09, True)])
+    diag('(FIX 0.09)', [(0.09, True)])
+    diag('(0.09,FIXED)', [(0.09, True)])
+    diag('0.3 SD', [(0.09, False)])
+    diag('(0.3 SD)', [(0.09, False)])
+    diag('(SD 0.3)', [(0.09, False)])
+    diag('(0.3 STANDARD)', [(0.09, False)])
+    diag('(0.3 STANDARD FIX)', [(0.09, True)])
+    diag('(0.3 FIX SD)', [(0.09, True)])
+    diag('0.09 VARIANCE', [(0.09, False)])
+    diag('(0.09 VARIANCE)', [(0.09, False)])
+    diag('(0.09)x2', [(0.09, False)] * 2)
+    diag('(0.09 FIX)x2', [(0.09, True)] * 2)
+    diag('(0.3 SD)x3', [(0.09, False)] * 3)
+    diag('0.09 0.25', [(0.09, False), (0.25, False)])
+    diag('0.09\n 0.25 ; 2nd value\n', [(0.09, False), (0.25, False)])
+    diag('DIAGONAL(2) 0.09 0.25', [(0.09, False), (0.25, False)])
+    diag('DIAG(3) 0.09 0.25 0.16', [(0.09, False), (0.25, False), (0.16, False)])
+    diag('0.09 FIX 0.25', [(0.09, True), (0.25, False)])
+    diag('0.09 0.25 FIX', [(0.09, False), (0.25, True)])
+    diag('(0.3 SD) 0.25', [(0.09, False), (0.25, False)])
+    diag('0.25 (0.3 SD)', [(0.25, False), (0.09, False)])
+    diag('0.3 SD 0.5 SD', [(0.09, False), (0.25, False)])
+    diag('(0.09)x2 0.25 FIX', [(0.09, False), (0.09, False), (0.25, True)])
+    diag('0 FIX', [(0.0, True)])
+    diag('1E-2 2.5E-1', [(0.01, False), (0.25, False)])
+
+    sizes = (1, 2, 3)
+    for n in sizes:
+        nums = _BLOCK_NUMS[n]
+        rows = _fmt_rows(nums, n)
+        flat = ' '.join(rows)
+        for long, short in _MODES:
+            mode = _mode_set(long)
+            if n == 1 and 'CORR' in mode:
+                continue
+            cov = ref_block_matrix(nums, n, mode)
+            for fix in (False, True):
+                fx = ' FIX' if fix else ''
+                blk = [{'cov': cov, 'fix': fix}]
+                # options before BLOCK(n), rows on separate lines
+                recs.append(('block', f'{long} BLOCK({n}){fx}\n ' + '\n '.join(rows) + '\n', blk))
+                # abbreviated options after BLOCK(n), one line
+                recs.append(('block', f'BLOCK({n}) {short}{fx} {flat}', blk))
+                # options after the values
+                recs.append(('block', f'BLOCK({n}) {flat} {short}{" FIXED" if fix else ""}', blk))
+                # options / FIX in parentheses with the first value
+                inner = ' '.join(x for x in (short, 'FIX' if fix else '') if x)
+                if inner:
+                    rest = ' '.join(f'{x:g}' for x in nums[1:])
+                    recs.append(('block', f'BLOCK({n}) ({nums[0]:g} {inner}) {rest}', blk))
+    # (value)xn inside a block
+    nums = [0.8, 0.1, 0.7, 0.1, 0.1, 0.9]
+    recs.append(('block', 'BLOCK(3) 0.8 0.1 0.7 (0.1)x2 0.9',
+                 [{'cov': ref_block_matrix(nums, 3, set()), 'fix': False}]))
+    nums = [0.8, 0.1, 0.7, 0.1, 0.1, 0.9]
+    recs.append(('block', 'BLOCK(3) FIX 0.8 (0.1)x1 0.7 (0.1)x2 0.9',
+                 [{'cov': ref_block_matrix(nums, 3, set()), 'fix': True}]))
+    nums = [0.5, 0.1, 0.5]
+    recs.append(('block', 'BLOCK(2) 0.5 0.1 0.5 ; 3 values\n',
+                 [{'cov': ref_block_matrix(nums, 2, set()), 'fix': False}]))
+    # BLOCK(n) VALUES(diag,odiag)
+    for n in (2, 3):
+        cov = np.full((n, n), 0.1)
+        np.fill_diagonal(cov, 0.5)
+        recs.append(('values', f'BLOCK({n}) VALUES(0.5,0.1)', [{'cov': cov, 'fix': False}]))
+        recs.append(('values', f'BLOCK({n}) VALUES(0.5, 0.1) FIX', [{'cov': cov, 'fix': True}]))
+        recs.append(('values', f'BLOCK({n}) FIX VALUES(0.5,0.1)', [{'cov': cov, 'fix': True}]))
+    return recs
+
+
+def gen_cov_cases(tier):
+    """-> list of record sequences [(family, body, blocks), ...]"""
+    import numpy as np
+
+    singles = gen_cov_records(tier)
+    cases = [[r] for r in singles]
+    # SAME after a block
+    starts = [
+        ('block', 'BLOCK(1) 0.3', [{'cov': np.array([[0.3]]), 'fix': False}]),
+        ('block', 'BLOCK(2) 0.8 -0.3 0.7',
+         [{'cov': ref_block_matrix(_BLOCK_NUMS[2], 2, set()), 'fix': False}]),
+        ('block', 'BLOCK(2) SD CORR FIX 0.8 -0.3 0.7',
+         [{'cov': ref_block_matrix(_BLOCK_NUMS[2], 2, {'SD', 'CORR'}), 'fix': True}]),
+        ('block', 'BLOCK(3) 0.8 0.2 0.7 -0.1 0.3 0.9',
+         [{'cov': ref_block_matrix(_BLOCK_NUMS[3], 3, set()), 'fix': False}]),
+    ]
+    tail = ('diagonal', '0.25', [{'cov': np.array([[0.25]]), 'fix': False}])
+    for st in starts:
+        n = len(st[2][0]['cov'])
+        sames = [
+            ('same', f'BLOCK({n}) SAME', [{'same': 1}]),
+            ('same', 'BLOCK SAME', [{'same': 1}]),
+            ('same', f'BLOCK({n}) SAME(2)', [{'same': 2}]),
+            ('same', 'BLOCK SAME(3)', [{'same': 3}]),
+        ]
+        for s1 in sames:
+            cases.append([st, s1])
+            cases.append([st, s1, tail])
+            cases.append([tail, st, s1])
+            for s2 in sames[:2]:
+                cases.append([st, s1, s2])
+    # ordered pairs of ordinary records
+    pool = [r for r in singles if r[1] in (
+        '0.09', '0.09 FIX', '(0.3 SD)', '(0.09)x2', '0.09 0.25 FIX',
+        'BLOCK(2) SD CORR 0.8 -0.3 0.7', 'BLOCK(2) 0.8 -0.3 0.7 FIXED', 'BLOCK(1) VAR 0.3',
+        'BLOCK(3) CHOL 0.8 0.2 0.7 -0.1 0.3 0.9')]
+    for a in pool:
+        for b in pool:
+            cases.append([a, b])
+    return cases
+
+
+_PARAM_TEMPLATE = '''$PROBLEM bounded
+$INPUT ID TIME DV WGT AGE
+$DATA file.csv IGNORE=@
+$PRED
+Y = THETA(1) + ETA(1) + EPS(1)
+%s
+$ESTIMATION METHOD=1
+'''
+
+_TRIVIAL = {'THETA': '$THETA 1', 'OMEGA': '$OMEGA 0.1', 'SIGMA': '$SIGMA 1'}
+
+
+def _cov_text(seq, name):
+    return '\n'.join(f'${name} {body}' for _, body, _ in seq)
+
+
+def _expand_blocks(seq):
+    """-> per record: list of (cov, fix, shares_previous)"""
+    out = []
+    prev = None
+    for fam, body, blocks in seq:
+        cur = []
+        for b in blocks:
+            if 'same' in b:
+                for _ in range(b['same']):
+                    cur.append((prev[0], prev[1], True))
+            else:
+                prev = (b['cov'], b['fix'])
+                cur.append((b['cov'], b['fix'], False))
+        out.append(cur)
+    return out
+
+
+def _check_cov(model, seq, name):
+    """compare the etas ($OMEGA) or epsilons ($SIGMA) of the model with the record sequence"""
+    import numpy as np
+    import sympy
+
+    rvs = model.random_variables.etas if name == 'OMEGA' else model.random_variables.epsilons
+    params = model.parameters
+    pdict = {p.name: p for p in params}
+    M = sympy.Matrix(rvs.covariance_matrix) if len(rvs.names) else sympy.zeros(0, 0)
+    inits = {sympy.Symbol(p.name): p.init for p in params}
+    fails = []
+    expanded = _expand_blocks(seq)
+    ntot = sum(len(c) for blocks in expanded for c, _, _ in blocks)
+    off = 0
+    prev_syms = None
+    used_syms = []
+    for (fam, body, _), blocks in zip(seq, expanded):
+        where = f'${name} {body.strip()}'
+        for cov, fix, shared in blocks:
+            n = len(cov)
+            if off + n > M.shape[0]:
+                fails.append((fam, 'matrix', f'{where}: the model has only {M.shape[0]} random '
+                              f'variables, the records define {ntot}'))
+                return fails
+            sub = M[off : off + n, off : off + n]
+            rows = M[off : off + n, :]
+            num = np.array(rows.subs(inits).tolist(), dtype=float)
+            want = np.zeros((n, M.shape[1]))
+            want[:, off : off + n] = cov
+            if want.shape != num.shape or not np.allclose(num, want, rtol=1e-9, atol=1e-14):
+                fails.append((fam, 'matrix', f'{where}: rows {off + 1}..{off + n} of the covariance '
+                              f'matrix are {num.tolist()}, the record defines {want.tolist()}'))
+                return fails
+            syms = [sub[i, j] for i in range(n) for j in range(i + 1)]
+            for s in syms:
+                if not s.is_Symbol or s.name not in pdict:
+                    fails.append((fam, 'matrix', f'{where}: covariance entry {s} is not a parameter'))
+                    return fails
+            fx = [pdict[s.name].fix for s in syms]
+            if any(f != fix for f in fx):
+                fails.append((fam, 'fix', f'{where}: FIX of the block is {fix}, parameters '
+                              f'{[s.name for s in syms]} have fix={fx}'))
+            if shared:
+                if syms != prev_syms:
+                    fails.append((fam, 'same', f'{where}: SAME block uses parameters '
+                                  f'{[s.name for s in syms]}, previous block {[str(s) for s in prev_syms]}'))
+            else:
+                used_syms.extend(s.name for s in syms)
+                for i, s in enumerate(syms):
+                    # diagonal elements: cannot be negative
+                    pass
+            prev_syms = syms
+            off += n
+    if off != M.shape[0]:
+        fam = seq[-1][0]
+        fails.append((fam, 'matrix', f'the model has {M.shape[0]} random variables, the ${name} records '
+                      f'define {off}'))
+    prefix = name + '_'
+    declared = [p.name for p in params if p.name.startswith(prefix)]
+    if sorted(declared) != sorted(set(used_syms)) and not fails:
+        fam = 'same' if any(f == 'same' for f, _, _ in seq) else seq[-1][0]
+        fails.append((fam, 'count', f'${name} parameters of the model are {declared}, the records '
+                      f'define {len(set(used_syms))} distinct parameters ({sorted(set(used_syms))})'))
+    return fails
+
+
+def _check_theta(model, expected):
+    rvp = set(model.random_variables.parameter_names)
+    got = [(p.init, p.lower, p.upper, p.fix) for p in model.parameters if p.name not in rvp]
+    if len(got) != len(expected):
+        return f'{len(got)} thetas read, {len(expected)} written'
+    for k, (g, e) in enumerate(zip(got, expected), 1):
+        if not (close(g[0], e[0], 1e-14) and g[1] == e[1] and g[2] == e[2] and g[3] == e[3]):
+            return f'THETA({k}): read (init, lower, upper, fix)={g}, written {e}'
+    return None
+
+
+THETA_VALUE_CLAUSE = ('$THETA: number, initial estimate, bounds and fixedness of the thetas equal the '
+                      'values written in the record')
+_COV_CLAUSE = {
+    'matrix': 'the covariance matrix of the random variables at the initial estimates equals the matrix the record defines under its VARIANCE/STANDARD, COVARIANCE/CORRELATION, CHOLESKY options (zero between blocks)',
+    'fix': 'every parameter of a block/value is fixed exactly if FIX is given for it',
+    'same': 'a SAME block has the parameters of the previous block',
+    'count': 'the records define exactly the covariance parameters of the model (SAME adds none)',
+}
+_COV_FID = {'matrix': FID_OMEGA_REC, 'fix': FID_OMEGA_PARAMS, 'same': FID_RVS, 'count': FID_OMEGA_PARAMS}
+_FAMILY_TEXT = {
+    'diagonal': 'diagonal record', 'block': 'BLOCK(n) record', 'same': 'BLOCK SAME record',
+    'values': 'BLOCK(n) VALUES(diag,odiag) record',
+}
+
+
+def _check_param_case(case):
+    """case = {'theta': (text, expected) , 'omega': seq, 'sigma': seq} -> list of fail tuples
+    (fid, clause, detail, part)"""
+    from pharmpy.model import ModelSyntaxError  # noqa: F401
+    from pharmpy.modeling import read_model_from_string
+
+    _speedup()
+    ttext, texp, titems = case['theta']
+    parts = {'THETA': ttext, 'OMEGA': _cov_text(case['omega'], 'OMEGA'),
+             'SIGMA': _cov_text(case['sigma'], 'SIGMA')}
+    fails = []
+
+    def read(p):
+        return read_model_from_string(_PARAM_TEMPLATE % '\n'.join(p[k] for k in ('THETA', 'OMEGA', 'SIGMA')))
+
+    def family(seq):
+        fams = [f for f, _, _ in seq]
+        for f in ('values', 'same'):
+            if f in fams:
+                return f
+        return fams[-1] if len(set(fams)) == 1 else 'block' if 'block' in fams else fams[-1]
+
+    def check_part(model, which):
+        if which == 'THETA':
+            d = _check_theta(model, texp)
+            if d:
+                fails.append((FID_THETA, THETA_VALUE_CLAUSE, f'{ttext!r}: {d}', which))
+        else:
+            seq = case['omega'] if which == 'OMEGA' else case['sigma']
+            seen = set()
+            for fam, what, detail in _check_cov(model, seq, which):
+                clause = f'${which} {_FAMILY_TEXT[fam]}: {_COV_CLAUSE[what]}'
+                if clause not in seen:
+                    seen.add(clause)
+                    fails.append((_COV_FID[what], clause, detail, which))
+
+    try:
+        model = read(parts)
+    except Exception:
+        # find the part(s) that cannot be read: each alone with trivial other records
+        for which in ('THETA', 'OMEGA', 'SIGMA'):
+            p = dict(_TRIVIAL)
+            p[which] = parts[which]
+            try:
+                m1 = read(p)
+            except Exception as exc:
+                if which == 'THETA':
+                    # one item per model, so that one unreadable form does not hide the others
+                    for itext, iexp in titems:
+                        p1 = dict(_TRIVIAL)
+                        p1['THETA'] = '$THETA ' + itext
+                        try:
+                            m2 = read(p1)
+                        except Exception as exc2:
+                            fails.append((FID_THETA_REC, '$THETA: documented record form is read without error',
+                                          f'{p1["THETA"]!r}: {type(exc2).__name__}: {str(exc2)[:150]}', which))
+                        else:
+                            d = _check_theta(m2, iexp)
+                            if d:
+                                fails.append((FID_THETA, THETA_VALUE_CLAUSE, f'{p1["THETA"]!r}: {d}', which))
+                    continue
+                else:
+                    seq = case['omega'] if which == 'OMEGA' else case['sigma']
+                    fid = FID_OMEGA_REC
+                    clause = f'${which} {_FAMILY_TEXT[family(seq)]}: documented record form is read without error'
+                fails.append((fid, clause, f'{parts[which]!r}: {type(exc).__name__}: {str(exc)[:150]}', which))
+            else:
+                check_part(m1, which)
+        return fails
+    for which in ('THETA', 'OMEGA', 'SIGMA'):
+        try:
+            check_part(model, which)
+        except Exception as exc:
+            fails.append((FID_RVS, f'${which}: parameters and random variables of the read model can be '
+                          'evaluated', f'{parts[which]!r}: {type(exc).__name__}: {str(exc)[:150]}', which))
+    return fails
+
+
+def _param_cases(tier):
+    thetas = gen_theta_cases(tier)
+    covs = gen_cov_cases(tier)
+    n = max(len(thetas), len(covs))
+    cases = []
+    for i in range(n):
+        # $SIGMA runs through the same list shifted, so that every form is read for both records
+        cases.append({'theta': thetas[i % len(thetas)], 'omega': covs[i % len(covs)],
+                      'sigma': covs[(i + len(covs) // 2) % len(covs)]})
+    return cases, len(thetas), len(covs)
+
+
+def _enc(x):
+    if isinstance(x, float) and math.isinf(x):
+        return 'inf' if x > 0 else '-inf'
+    return x
+
+
+def _case_json(case, which):
+    """json-serialisable, self-contained description of one part of a case"""
+    if which == 'THETA':
+        return {'part': 'THETA', 'text': case['theta'][0],
+                'expected': [[_enc(v) for v in e] for e in case['theta'][1]]}
+    seq = case['omega'] if which == 'OMEGA' else case['sigma']
+    return {'part': which, 'bodies': [b for _, b, _ in seq], 'families': [f for f, _, _ in seq],
+            'blocks': [[({'same': b['same']} if 'same' in b else
+                         {'cov': [list(map(float, r)) for r in b['cov']], 'fix': b['fix']})
+                        for b in blocks] for _, _, blocks in seq]}
+
+
+def bounded_omega_theta_parse(tier='quick'):
+    cases, nt, nc = _param_cases(tier)
+    results = _run_pool(_check_param_case, cases)
+    fails = {}
+    for case, res in zip(cases, results):
+        for fid, clause, detail, which in res:
+            cj = _case_json(case, which)
+            size = len(str(cj))
+            key = (fid, clause)
+            if key not in fails or size < fails[key]['_size']:
+                fails[key] = {'fid': fid, 'clause': clause, 'detail': detail,
+                              'case': dict(cj, clause=clause),
+                              'replay_fn': 'bounded_omega_theta_parse_replay', '_size': size}
+    for f in fails.values():
+        f.pop('_size')
+    nthetas = sum(len(c['theta'][1]) for c in cases[:nt])
+    return {
+        'cases': len(cases),
+        'nontrivial': len(cases),
+        'bound': (
+            f'{len(cases)} control streams covering: every $THETA form with explicit initial estimate '
+            f'(init | (init) | (low,init) | (low,init,up) | xn repeats | FIX inside/outside | all bounds equal) '
+            f'over {4 if tier != "thorough" else 7} initial values x 4 lower x 4 upper bounds ({nthetas} thetas in '
+            f'{nt} record sets) and all ordered pairs of 8 forms; {nc} $OMEGA and $SIGMA record sequences: 30 '
+            f'diagonal forms, BLOCK(n) n<=3 x 11 option sets (VARIANCE|STANDARD x COVARIANCE|CORRELATION, '
+            f'CHOLESKY) x 4 option placements x FIX, (v)xn in blocks, VALUES(d,o), SAME / SAME(m) after 4 '
+            f'blocks (<=3 records), all ordered pairs of 9 records'),
+        'samples': [cases[0]['theta'][0], _cov_text(cases[40]['omega'], 'OMEGA'),
+                    _cov_text(cases[-1]['omega'], 'OMEGA')],
+        'fails': sorted(fails.values(), key=lambda f: (f['fid'], f['clause'])),
+    }
+
+
+def bounded_omega_theta_parse_replay(rp):
+    import numpy as np
+
+    c = rp['case']
+    trivial_seq = [('diagonal', '0.1', [{'cov': np.array([[0.1]]), 'fix': False}])]
+    case = {'theta': ('$THETA 1', [(1.0, -_INF, _INF, False)], [('1', [(1.0, -_INF, _INF, False)])]),
+            'omega': trivial_seq, 'sigma': trivial_seq}
+    if c['part'] == 'THETA':
+        exp = [tuple(float(v) if isinstance(v, str) else v for v in e) for e in c['expected']]
+        case['theta'] = (c['text'], exp, [(c['text'].replace('$THETA ', '', 1), exp)])
+    else:
+        seq = []
+        for fam, body, blocks in zip(c['families'], c['bodies'], c['blocks']):
+            seq.append((fam, body, [b if 'same' in b else {'cov': np.array(b['cov']), 'fix': b['fix']}
+                                    for b in blocks]))
+        case['omega' if c['part'] == 'OMEGA' else 'sigma'] = seq
+    res = [r for r in _check_param_case(case) if r[3] == c['part'] and r[1] == c.get('clause', r[1])]
+    if res:
+        return (False, res[0][2])
+    return (True, 'ok')
+
+
+# --------------------------------------------------------------------------------------------------
+# (3) bounded_advan_trans
+# --------------------------------------------------------------------------------------------------
+
+FID_ADVAN = 'src/pharmpy/model/external/nonmem/advan.py:_compartmental_model'
+FID_FLINK = 'src/pharmpy/model/external/nonmem/advan.py:_f_link_assignment'
+FID_DOSING = 'src/pharmpy/model/external/nonmem/advan.py:dosing'
+
+# PREDPP library (NONMEM Users Guide VI / help ADVANn, TRANSn) -------------------------------------
+# compartments are numbered as in PREDPP; 0 is the output compartment
+PREDPP_ADVAN = {
+    # advan: (n compartments, default dose, default obs, {(from, to): micro constant})
+    1: (1, 1, 1, {(1, 0): 'K'}),
+    2: (2, 1, 2, {(1, 2): 'KA', (2, 0): 'K'}),
+    3: (2, 1, 1, {(1, 0): 'K', (1, 2): 'K12', (2, 1): 'K21'}),
+    4: (3, 1, 2, {(1, 2): 'KA', (2, 0): 'K', (2, 3): 'K23', (3, 2): 'K32'}),
+    10: (1, 1, 1, {(1, 0): 'VM/(KM+A1)'}),
+    11: (3, 1, 1, {(1, 0): 'K', (1, 2): 'K12', (2, 1): 'K21', (1, 3): 'K13', (3, 1): 'K31'}),
+    12: (4, 1, 2, {(1, 2): 'KA', (2, 0): 'K', (2, 3): 'K23', (3, 2): 'K32', (2, 4): 'K24',
+                   (4, 2): 'K42'}),
+}
+
+# (advan, trans): (basic PK parameters in $PK, [(micro constant, definition)...] in evaluation order)
+_T56_2 = lambda kpc, kcp: [  # noqa: E731  two-compartment TRANS6 (kpc: periph->central)
+    ('K', f'ALPHA*BETA/{kpc}'), (kcp, f'ALPHA+BETA-{kpc}-K')]
+_T6_3 = lambda k21, k31, k12, k13: [  # noqa: E731  three-compartment TRANS6
+    ('K', f'ALPHA*BETA*GAMMA/({k21}*{k31})'),
+    (k13, f'(ALPHA*BETA+ALPHA*GAMMA+BETA*GAMMA+{k31}*{k31}-{k31}*(ALPHA+BETA+GAMMA)-K*{k21})/({k21}-{k31})'),
+    (k12, f'ALPHA+BETA+GAMMA-K-{k13}-{k21}-{k31}')]
+PREDPP_TRANS = {
+    (1, 1): (['K'], []),
+    (1, 2): (['CL', 'V'], [('K', 'CL/V')]),
+    (2, 1): (['K', 'KA'], []),
+    (2, 2): (['CL', 'V', 'KA'], [('K', 'CL/V')]),
+    (3, 1): (['K', 'K12', 'K21'], []),
+    (3, 3): (['CL', 'V', 'Q', 'VSS'], [('K', 'CL/V'), ('K12', 'Q/V'), ('K21', 'Q/(VSS-V)')]),
+    (3, 4): (['CL', 'V1', 'Q', 'V2'], [('K', 'CL/V1'), ('K12', 'Q/V1'), ('K21', 'Q/V2')]),
+    (3, 5): (['AOB', 'ALPHA', 'BETA'], [('K21', '(AOB*BETA+ALPHA)/(AOB+1)')] + _T56_2('K21', 'K12')),
+    (3, 6): (['ALPHA', 'BETA', 'K21'], _T56_2('K21', 'K12')),
+    (4, 1): (['K', 'K23', 'K32', 'KA'], []),
+    (4, 3): (['CL', 'V', 'Q', 'VSS', 'KA'], [('K', 'CL/V'), ('K23', 'Q/V'), ('K32', 'Q/(VSS-V)')]),
+    (4, 4): (['CL', 'V2', 'Q', 'V3', 'KA'], [('K', 'CL/V2'), ('K23', 'Q/V2'), ('K32', 'Q/V3')]),
+    (4, 5): (['AOB', 'ALPHA', 'BETA', 'KA'],
+             [('K32', '(AOB*BETA+ALPHA)/(AOB+1)')] + _T56_2('K32', 'K23')),
+    (4, 6): (['ALPHA', 'BETA', 'K32', 'KA'], _T56_2('K32', 'K23')),
+    (10, 1): (['VM', 'KM'], []),
+    (11, 1): (['K', 'K12', 'K21', 'K13', 'K31'], []),
+    (11, 4): (['CL', 'V1', 'Q2', 'V2', 'Q3', 'V3'],
+              [('K', 'CL/V1'), ('K12', 'Q2/V1'), ('K21', 'Q2/V2'), ('K13', 'Q3/V1'), ('K31', 'Q3/V3')]),
+    (11, 6): (['ALPHA', 'BETA', 'GAMMA', 'K21', 'K31'], _T6_3('K21', 'K31', 'K12', 'K13')),
+    (12, 1): (['K', 'K23', 'K32', 'K24', 'K42', 'KA'], []),
+    (12, 4): (['CL', 'V2', 'Q3', 'V3', 'Q4', 'V4', 'KA'],
+              [('K', 'CL/V2'), ('K23', 'Q3/V2'), ('K32', 'Q3/V3'), ('K24', 'Q4/V2'), ('K42', 'Q4/V4')]),
+    (12, 6): (['ALPHA', 'BETA', 'GAMMA', 'K32', 'K42', 'KA'], _T6_3('K32', 'K42', 'K23', 'K24')),
+}
+
+
+def predpp_rates(advan, trans, basic_values):
+    """{(from, to): sympy expression} of the rate constants in terms of basic_values (name -> expr)"""
+    import sympy
+
+    env = dict(basic_values)
+    for name, definition in PREDPP_TRANS[(advan, trans)][1]:
+        env[name] = sympy.sympify(definition, locals={k: v for k, v in env.items()})
+    env['A1'] = sympy.Symbol('__A1')
+    rates = {}
+    for ft, k in PREDPP_ADVAN[advan][3].items():
+        rates[ft] = sympy.sympify(k, locals=env)
+    return rates
+
+
+def _selfcheck_predpp_table():
+    """TRANS5/TRANS6 tables: -ALPHA, -BETA(, -GAMMA) must be the eigenvalues of the rate matrix and
+    AOB the ratio of the bolus response coefficients (defining properties of these parameters)"""
+    import numpy as np
+    import sympy
+
+    bad = []
+    vals = {'ALPHA': 1.7, 'BETA': 0.23, 'GAMMA': 0.041, 'AOB': 3.1, 'K21': 0.5, 'K32': 0.5,
+            'K31': 0.08, 'K42': 0.08, 'KA': 2.9}
+    for (advan, trans), (basic, _) in PREDPP_TRANS.items():
+        if trans not in (5, 6):
+            continue
+        bv = {b: sympy.Float(vals[b]) for b in basic}
+        rates = predpp_rates(advan, trans, bv)
+        n = PREDPP_ADVAN[advan][0]
+        M = np.zeros((n, n))
+        for (f, t), r in rates.items():
+            M[f - 1, f - 1] -= float(r)
+            if t != 0:
+                M[t - 1, f - 1] += float(r)
+        ev = sorted(-np.linalg.eigvals(M).real)
+        want = sorted([vals[x] for x in ('ALPHA', 'BETA', 'GAMMA') if x in basic]
+                      + ([vals['KA']] if 'KA' in basic else []))
+        if not np.allclose(ev, want, rtol=1e-9):
+            bad.append((advan, trans, ev, want))
+        if trans == 5:
+            central = PREDPP_ADVAN[advan][2]
+            kpc = float([r for (f, t), r in rates.items() if t == central and f == central + 1][0])
+            aob = (vals['ALPHA'] - kpc) / (kpc - vals['BETA'])
+            if not math.isclose(aob, vals['AOB'], rel_tol=1e-9):
+                bad.append((advan, trans, 'AOB', aob))
+    return bad
+
+
+_SCALE_VARIANTS = ('none', 'Sobs', 'SC', 'Sother', 'Sboth', 'Sout')
+_ATTR_VARIANTS = ('none', 'ALAGdose', 'Fdose', 'ALAGother', 'Fother', 'all')
+_DATA_VARIANTS = ('nodata', 'rate-2', 'rate-1', 'rate10', 'rate0', 'cmt2')
+
+
+def gen_advan_cases(tier):
+    cases = []
+    for (advan, trans) in PREDPP_TRANS:
+        n, dose, obs, _ = PREDPP_ADVAN[advan]
+        for scale in _SCALE_VARIANTS:
+            for attr in _ATTR_VARIANTS:
+                if n == 1 and attr in ('ALAGother', 'Fother'):
+                    continue
+                cases.append({'advan': advan, 'trans': trans, 'scale': scale, 'attr': attr,
+                              'data': 'nodata'})
+        for data in _DATA_VARIANTS[1:]:
+            if data == 'cmt2' and n < 2:
+                continue
+            attrs = _ATTR_VARIANTS if tier == 'thorough' else ('none', 'all')
+            for attr in attrs:
+                if n == 1 and attr in ('ALAGother', 'Fother'):
+                    continue
+                for scale in (_SCALE_VARIANTS if tier == 'thorough' else ('Sobs',)):
+                    cases.append({'advan': advan, 'trans': trans, 'scale': scale, 'attr': attr,
+                                  'data': data})
+    return cases
+
+
+def _advan_code(case):
+    """-> (control stream, csv text or None, expectation dict)"""
+    advan, trans = case['advan'], case['trans']
+    n, dose, obs, _ = PREDPP_ADVAN[advan]
+    basic = PREDPP_TRANS[(advan, trans)][0]
+    pk = []
+    k = 0
+    for b in basic:
+        k += 1
+        pk.append(f'{b} = THETA({k})' + ('*EXP(ETA(1))' if k == 1 else ''))
+    other = 1 if obs != 1 else (2 if n >= 2 else None)
+    if case['data'] == 'cmt2':
+        dose = 2
+    otherd = [c for c in range(1, n + 1) if c != dose]
+    otherd = otherd[-1] if otherd else None
+    exp = {'scale': None, 'lag': {}, 'bio': {}, 'dose_cmt': dose, 'obs_cmt': obs}
+    thetas = {}
+
+    def newtheta(name):
+        nonlocal k
+        k += 1
+        pk.append(f'{name} = THETA({k})')
+        thetas[name] = k
+
+    sc = case['scale']
+    if sc in ('Sobs', 'Sboth'):
+        newtheta(f'S{obs}')
+        exp['scale'] = thetas[f'S{obs}']
+    if sc == 'SC':
+        newtheta('SC')
+        exp['scale'] = thetas['SC']
+    if sc in ('Sother', 'Sboth'):
+        newtheta(f'S{other}' if other else f'S{n + 1}')
+    if sc == 'Sout':
+        newtheta('S0')
+    at = case['attr']
+    if at in ('ALAGdose', 'all'):
+        newtheta(f'ALAG{dose}')
+        exp['lag'][dose] = thetas[f'ALAG{dose}']
+    if at in ('Fdose', 'all'):
+        newtheta(f'F{dose}')
+        exp['bio'][dose] = thetas[f'F{dose}']
+    if at in ('ALAGother', 'all') and otherd:
+        newtheta(f'ALAG{otherd}')
+        exp['lag'][otherd] = thetas[f'ALAG{otherd}']
+    if at in ('Fother', 'all') and otherd:
+        newtheta(f'F{otherd}')
+        exp['bio'][otherd] = thetas[f'F{otherd}']
+    data = case['data']
+    exp['dose'] = ('Bolus', None)
+    if data == 'rate-2':
+        newtheta(f'D{dose}')
+        exp['dose'] = ('Infusion', ('duration', f'THETA_{thetas[f"D{dose}"]}'))
+    elif data == 'rate-1':
+        newtheta(f'R{dose}')
+        exp['dose'] = ('Infusion', ('rate', f'THETA_{thetas[f"R{dose}"]}'))
+    elif data == 'rate10':
+        exp['dose'] = ('Infusion', ('rate', 'RATE'))
+    cols = ['ID', 'TIME', 'AMT']
+    csv = None
+    if data != 'nodata':
+        rate = {'rate-2': '-2', 'rate-1': '-1', 'rate10': '10', 'rate0': '0', 'cmt2': None}[data]
+        if rate is not None:
+            cols.append('RATE')
+        if data == 'cmt2':
+            cols.append('CMT')
+        cols += ['DV', 'WGT']
+        rows = []
+        for i in (1, 2):
+            for t, amt, dv in ((0, 100, 0), (1, 0, 5.5), (2, 0, 3.25), (12, 100, 0), (13, 0, 6.5)):
+                r = [str(i), str(t), str(amt)]
+                if rate is not None:
+                    r.append(rate if amt else '0')
+                if data == 'cmt2':
+                    r.append('2')
+                r += [str(dv), '70']
+                rows.append(','.join(r))
+        csv = ','.join(cols) + '\n' + '\n'.join(rows) + '\n'
+    else:
+        cols += ['DV', 'WGT']
+    code = (f'$PROBLEM bounded\n$INPUT {" ".join(cols)}\n$DATA data.csv IGNORE=@\n'
+            f'$SUBROUTINE ADVAN{advan} TRANS{trans}\n$PK\n' + '\n'.join(pk) +
+            '\n$ERROR\nIPRED = F\nY = IPRED + IPRED*EPS(1)\n$THETA ' +
+            ' '.join(f'(0,{1 + 0.5 * i:g})' for i in range(k)) +
+            '\n$OMEGA 0.1\n$SIGMA 0.1\n$ESTIMATION METHOD=1\n')
+    if data == 'cmt2' and obs != 2:
+        # every record (also the observations) has CMT=2: compartment 2 is observed, scaled by S2
+        exp['obs_cmt'] = 2
+        exp['scale'] = thetas.get('S2')
+    exp['obs_record'] = {'CMT': 2, 'AMT': 0} if data == 'cmt2' else {}
+    exp['nbasic'] = len(basic)
+    return code, csv, exp
+
+
+def _is_zero(e):
+    import sympy
+
+    e = sympy.sympify(e)
+    if e == 0:
+        return True
+    return sympy.cancel(sympy.together(e)) == 0
+
+
+def _check_advan_case(case):
+    """-> list of (fid, clause, detail)"""
+    import tempfile
+
+    import sympy
+    from pharmpy.model import output
+    from pharmpy.modeling import read_model, read_model_from_string
+
+    _speedup()
+    advan, trans = case['advan'], case['trans']
+    tag = f'ADVAN{advan} TRANS{trans}'
+    code, csv, exp = _advan_code(case)
+    n, _, _, _ = PREDPP_ADVAN[advan]
+    fails = []
+    try:
+        if csv is None:
+            model = read_model_from_string(code)
+        else:
+            with tempfile.TemporaryDirectory() as d:
+                with open(os.path.join(d, 'data.csv'), 'w') as fh:
+                    fh.write(csv)
+                with open(os.path.join(d, 'run1.mod'), 'w') as fh:
+                    fh.write(code)
+                model = read_model(os.path.join(d, 'run1.mod'))
+                model.dataset  # noqa: B018
+        sset = model.statements
+        cs = sset.ode_system
+        if cs is None:
+            raise ValueError('no ODE system in the model')
+        before = sset.before_odes
+        names = list(cs.compartment_names)
+    except Exception as exc:
+        return [(FID_ADVAN, f'$SUBROUTINE with library ADVAN/TRANS{trans}: control stream is read without error',
+                 f'{tag}: {type(exc).__name__}: {str(exc)[:200]}')]
+
+    def full(e):
+        return sympy.sympify(before.full_expression(e))
+
+    th = lambda i: sympy.Symbol(f'THETA_{i}')  # noqa: E731
+    basic = PREDPP_TRANS[(advan, trans)][0]
+    bv = {b: (th(i) * sympy.exp(sympy.Symbol('ETA_1')) if i == 1 else th(i))
+          for i, b in enumerate(basic, 1)}
+    want_rates = predpp_rates(advan, trans, bv)
+
+    if len(names) != n:
+        return [(FID_ADVAN, 'the compartmental system has the compartments of the PREDPP ADVAN',
+                 f'{tag}: PREDPP defines {n} compartments, the model has {names}')]
+
+    comps = [cs.find_compartment(nm) for nm in names]
+    known = ({p.name for p in model.parameters} | set(model.random_variables.names)
+             | set(model.datainfo.names) | {'t'})
+    fexpr = sympy.sympify(sset.after_odes.full_expression(sympy.Symbol('Y')))
+    amounts = [sympy.sympify(c.amount) for c in comps]
+    afuncs = []
+    for a in amounts:
+        afuncs.append(sympy.Function(a.name)(sympy.Symbol('t')) if a.is_Symbol else a)
+
+    best = None
+    for perm in itertools.permutations(range(n)):
+        # perm[i] = index of the model compartment that plays PREDPP compartment i+1
+        probs = []
+        amap = {}
+        for i in range(n):
+            amap[afuncs[perm[i]]] = sympy.Symbol(f'__A{i + 1}')
+            amap[amounts[perm[i]]] = sympy.Symbol(f'__A{i + 1}')
+        undefined = set()
+        for f in range(1, n + 1):
+            for t in range(0, n + 1):
+                if f == t:
+                    continue
+                src = comps[perm[f - 1]]
+                dst = output if t == 0 else comps[perm[t - 1]]
+                got = full(cs.get_flow(src, dst)).subs(amap)
+                want = want_rates.get((f, t), sympy.Integer(0))
+                undefined |= {s.name for s in got.free_symbols} - known - {f'__A{i + 1}' for i in range(n)}
+                if not _is_zero(got - want):
+                    probs.append(('rate', f'flow {f}->{t}: model {got}, PREDPP {want}'))
+        if undefined:
+            probs.append(('undefined', f'symbols {sorted(undefined)} of the ODE system are neither '
+                          'defined in $PK nor parameters/data'))
+        # dosing
+        dosed = [i + 1 for i in range(n) if comps[perm[i]].doses]
+        if dosed != [exp['dose_cmt']]:
+            probs.append(('dosecmt', f'doses enter compartments {dosed}, PREDPP/data: {exp["dose_cmt"]}'))
+        else:
+            doses = comps[perm[exp['dose_cmt'] - 1]].doses
+            d = doses[0]
+            kind, par = exp['dose']
+            ok = len(doses) == 1 and type(d).__name__ == kind and str(d.amount) == 'AMT'
+            if ok and par:
+                v = getattr(d, par[0])
+                other = getattr(d, 'duration' if par[0] == 'rate' else 'rate')
+                ok = v is not None and str(full(v)) == par[1] and other is None
+            if not ok:
+                probs.append(('dosekind', f'dose of compartment {exp["dose_cmt"]} is {doses}, expected '
+                              f'{kind} {par or ""}'))
+        for i in range(n):
+            c = comps[perm[i]]
+            wl = th(exp['lag'][i + 1]) if (i + 1) in exp['lag'] else sympy.Integer(0)
+            wb = th(exp['bio'][i + 1]) if (i + 1) in exp['bio'] else sympy.Integer(1)
+            if not _is_zero(full(c.lag_time) - wl):
+                probs.append(('lag', f'lag time of compartment {i + 1} is {c.lag_time}, $PK defines {wl}'))
+            if not _is_zero(full(c.bioavailability) - wb):
+                probs.append(('bio', f'bioavailability of compartment {i + 1} is {c.bioavailability}, '
+                              f'$PK defines {wb}'))
+        # observation link
+        aobs = sympy.Symbol(f'__A{exp["obs_cmt"]}')
+        wantf = aobs / th(exp['scale']) if exp['scale'] else aobs
+        wanty = wantf * (1 + sympy.Symbol('EPS_1'))
+        goty = full(fexpr).subs(amap)
+        if exp['obs_record']:  # value on the observation records of the data set
+            goty = goty.subs({sympy.Symbol(k): v for k, v in exp['obs_record'].items()})
+            goty = sympy.piecewise_fold(goty) if goty.has(sympy.Piecewise) else goty
+        if not _is_zero(goty - wanty):
+            probs.append(('flink', f'Y = {goty}, PREDPP: {wanty}'))
+        if best is None or len(probs) < len(best):
+            best = probs
+        if not probs:
+            break
+    clause_of = {
+        'rate': (FID_ADVAN, f'TRANS{trans}: every flow of the compartmental system equals the PREDPP rate '
+                 'constant expressed in the basic PK parameters of the TRANS (and no other flow exists)'),
+        'undefined': (FID_ADVAN, f'TRANS{trans}: every symbol of the ODE system is defined by $PK, a '
+                      'parameter, a random variable or a data column'),
+        'dosecmt': (FID_DOSING, 'doses enter the PREDPP default dose compartment (or the compartment given by CMT)'),
+        'dosekind': (FID_DOSING, 'dose is a bolus, or an infusion with RATE / modelled rate Rn / modelled '
+                     'duration Dn, as the RATE data item says'),
+        'lag': (FID_ADVAN, 'ALAGn of $PK is the lag time of compartment n and of no other compartment'),
+        'bio': (FID_ADVAN, 'Fn of $PK is the bioavailability of compartment n and of no other compartment'),
+        'flink': (FID_FLINK, 'F is the amount of the default observation compartment divided by its scale '
+                  'parameter (Sn, or SC for the central compartment) when that is defined in $PK'),
+    }
+    seen = set()
+    for what, detail in best:
+        if what not in seen:
+            seen.add(what)
+            fid, clause = clause_of[what]
+            fails.append((fid, clause, f'{tag} scale={case["scale"]} attr={case["attr"]} data={case["data"]}: {detail}'))
+    return fails
+
+
+def bounded_advan_trans(tier='quick'):
+    cases = gen_advan_cases(tier)
+    fails = {}
+    bad = _selfcheck_predpp_table()
+    if bad:
+        fails[('checker',)] = {'fid': FID_ADVAN, 'clause': 'checker: PREDPP table is self-consistent',
+                               'detail': str(bad[:2]), 'case': cases[0],
+                               'replay_fn': 'bounded_advan_trans_replay'}
+    results = _run_pool(_check_advan_case, cases)
+
+    def size(c):
+        return (c['data'] != 'nodata', c['attr'] != 'none', c['scale'] != 'none', c['advan'], c['trans'])
+
+    for case, res in zip(cases, results):
+        for fid, clause, detail in res:
+            key = (fid, clause)
+            if key not in fails or size(case) < size(fails[key]['case']):
+                fails[key] = {'fid': fid, 'clause': clause, 'detail': detail,
+                              'case': dict(case, clause=clause), 'replay_fn': 'bounded_advan_trans_replay'}
+    return {
+        'cases': len(cases),
+        'nontrivial': len(cases),
+        'bound': (
+            'all 21 library combinations ADVAN{1,2,3,4,10,11,12} x TRANS allowed by NM-TRAN, $PK defining '
+            'exactly the basic parameters of the TRANS as THETAs, x 6 scale-parameter patterns (none, S<obs>, '
+            'SC, S<other>, both, S0) x 6 ALAGn/Fn patterns without data set; x 5 data sets (RATE=-2 with Dn, '
+            'RATE=-1 with Rn, RATE>0, RATE=0, doses with CMT=2)'
+            + (' x all patterns' if tier == 'thorough' else ' x 2 ALAGn/Fn patterns')
+            + '; compartments matched to PREDPP numbers by searching all bijections'),
+        'samples': [f'ADVAN{c["advan"]} TRANS{c["trans"]} {c["scale"]} {c["attr"]} {c["data"]}'
+                    for c in (cases[0], cases[len(cases) // 2], cases[-1])],
+        'fails': sorted(fails.values(), key=lambda f: (f['fid'], f['clause'])),
+    }
+
+
+def bounded_advan_trans_replay(rp):
+    case = {k: v for k, v in rp['case'].items() if k != 'clause'}
+    res = [r for r in _check_advan_case(case) if r[1] == rp['case'].get('clause', r[1])]
+    if res:
+        return (False, res[0][2])
+    return (True, 'ok')
+
+
+# --------------------------------------------------------------------------------------------------
+# (4) bounded_codegen_roundtrip
+# --------------------------------------------------------------------------------------------------
+
+FID_UPDATE_SOURCE = 'src/pharmpy/model/external/nonmem/model.py:Model.update_source'
+FID_UPDATE_ODE = 'src/pharmpy/model/external/nonmem/update.py:update_ode_system'
+FID_UPDATE_PARAMS = 'src/pharmpy/model/external/nonmem/update.py:update_thetas'
+FID_UPDATE_RVS = 'src/pharmpy/model/external/nonmem/update.py:update_random_variables'
+FID_PRINTER = CODE_RECORD + ':NMTranPrinter'
+FID_PIECEWISE = CODE_RECORD + ':_translate_sympy_piecewise'
+FID_UPDATE_STATEMENTS = CODE_RECORD + ':CodeRecord.update_statements'
+
+
+def _transformations():
+    import pharmpy.modeling as pm
+
+    return {
+        'set_first_order_absorption': pm.set_first_order_absorption,
+        'set_zero_order_absorption': pm.set_zero_order_absorption,
+        'set_seq_zo_fo_absorption': pm.set_seq_zo_fo_absorption,
+        'add_peripheral_compartment': pm.add_peripheral_compartment,
+        'set_peripheral_compartments_2': lambda m: pm.set_peripheral_compartments(m, 2),
+        'set_michaelis_menten_elimination': pm.set_michaelis_menten_elimination,
+        'set_mixed_mm_fo_elimination': pm.set_mixed_mm_fo_elimination,
+        'set_zero_order_elimination': pm.set_zero_order_elimination,
+        'set_transit_compartments_2': lambda m: pm.set_transit_compartments(m, 2),
+        'add_lag_time': pm.add_lag_time,
+        'add_bioavailability': pm.add_bioavailability,
+        'set_ode_solver_LSODA': lambda m: pm.set_ode_solver(m, 'LSODA'),
+        # second-step candidates (identity on the start model)
+        'remove_peripheral_compartment': pm.remove_peripheral_compartment,
+        'remove_lag_time': pm.remove_lag_time,
+        'remove_bioavailability': pm.remove_bioavailability,
+        'set_instantaneous_absorption': pm.set_instantaneous_absorption,
+        'set_first_order_elimination': pm.set_first_order_elimination,
+    }
+
+
+def gen_roundtrip_cases(tier):
+    names = list(_transformations())
+    cases = [[]] + [[a] for a in names]
+    if tier == 'thorough':
+        cases += [[a, b] for a in names for b in names]
+    return cases
+
+
+def _ir_eval_model(model, point, amount_values):
+    """Numeric meaning of a model at one point: evaluates the statements before the ODE system in
+    order, then the flows / doses / lag / bioavailability of every compartment, then the statements
+    after the ODE system.  amount_values[i] is the amount given to compartment i (model order)."""
+    import sympy
+    from pharmpy.model import output
+
+    sset = model.statements
+    cs = sset.ode_system
+    env = dict(point)
+    comps = []
+    if cs is not None:
+        comps = [cs.find_compartment(nm) for nm in cs.compartment_names]
+        for c, v in zip(comps, amount_values):
+            a = sympy.sympify(c.amount)
+            env[str(a)] = v
+            env[a.name if a.is_Symbol else str(a.func)] = v
+            env[f'{a.name if a.is_Symbol else a.func}(t)'] = v
+    ir_run(sset.before_odes if cs is not None else sset, env)
+
+    def val(e):
+        if e is None:
+            return None
+        try:
+            return ir_eval(sympy.sympify(e), env)
+        except IRUndefined as exc:
+            return f'undefined({exc})'
+
+    sig = {'n': len(comps), 'flows': {}, 'doses': [], 'lag': [], 'bio': []}
+    for i, c in enumerate(comps):
+        for j, d in enumerate(comps + [output]):
+            if i != j:
+                sig['flows'][(i, j)] = val(cs.get_flow(c, d))
+        sig['doses'].append(sorted(
+            (type(d).__name__, val(d.amount), val(getattr(d, 'rate', None)),
+             val(getattr(d, 'duration', None)), int(d.admid)) for d in c.doses))
+        sig['lag'].append(val(c.lag_time))
+        sig['bio'].append(val(c.bioavailability))
+    if cs is not None:
+        ir_run(sset.after_odes, env)
+    sig['dvs'] = {str(dv): (env.get(str(dv)) if env.get(str(dv)) is not None else 'undefined')
+                  for dv in model.dependent_variables}
+    return sig
+
+
+def _num_eq(a, b):
+    if isinstance(a, str) or isinstance(b, str):
+        return False  # an undefined value is never equal to anything
+    if a is None or b is None:
+        return a is None and b is None
+    return close(a, b, 1e-8)
+
+
+def _sig_diff(s1, s2, perm):
+    """differences between signature s1 and signature s2 whose compartment perm[i] plays s1's i"""
+    n = s1['n']
+    out = []
+    for i in range(n):
+        for j in range(n + 1):
+            if i == j:
+                continue
+            pi = perm[i]
+            pj = perm[j] if j < n else n
+            a, b = s1['flows'][(i, j)], s2['flows'][(pi, pj)]
+            if not _num_eq(a, b):
+                out.append(('flows', f'flow {i}->{j if j < n else "out"}: {a} vs {b}'))
+        d1, d2 = s1['doses'][i], s2['doses'][perm[i]]
+        if len(d1) != len(d2) or any(
+            x[0] != y[0] or x[4] != y[4] or not all(_num_eq(p, q) for p, q in zip(x[1:4], y[1:4]))
+            for x, y in zip(d1, d2)
+        ):
+            out.append(('doses', f'doses of compartment {i}: {d1} vs {d2}'))
+        if not _num_eq(s1['lag'][i], s2['lag'][perm[i]]):
+            out.append(('lag', f'lag time of compartment {i}: {s1["lag"][i]} vs {s2["lag"][perm[i]]}'))
+        if not _num_eq(s1['bio'][i], s2['bio'][perm[i]]):
+            out.append(('bio', f'bioavailability of compartment {i}: {s1["bio"][i]} vs {s2["bio"][perm[i]]}'))
+    if set(s1['dvs']) != set(s2['dvs']):
+        out.append(('dvs', f'dependent variables {sorted(s1["dvs"])} vs {sorted(s2["dvs"])}'))
+    else:
+        for k in s1['dvs']:
+            if not _num_eq(s1['dvs'][k], s2['dvs'][k]):
+                out.append(('dvs', f'{k}: {s1["dvs"][k]} vs {s2["dvs"][k]}'))
+    return out
+
+
+def _points(m1, m2):
+    """3 deterministic numeric points for all parameters, random variables and data columns"""
+    names = set()
+    for m in (m1, m2):
+        names |= {p.name for p in m.parameters} | set(m.random_variables.names) | set(m.datainfo.names)
+    pts = []
+    for k in range(3):
+        pt = {'t': 2.5 + k}
+        for nm in sorted(names):
+            h = sum((i + 1) * ord(c) for i, c in enumerate(nm)) % 23
+            pt[nm] = 0.3 + h / 11.0 + 0.17 * k
+        for m in (m1, m2):
+            for p in m.parameters:
+                lo = p.lower if p.lower > -1e5 else -10.0
+                up = p.upper if p.upper < 1e5 else lo + 10.0
+                h = sum((i + 1) * ord(c) for i, c in enumerate(p.name)) % 23
+                pt[p.name] = lo + (up - lo) * (0.15 + 0.03 * k + h / 40.0) if not p.fix else p.init
+            for nm in m.random_variables.names:
+                h = sum((i + 1) * ord(c) for i, c in enumerate(nm)) % 23
+                pt[nm] = (h - 11) / 40.0 + 0.01 * k
+        pt['APGR'] = [3.0, 6.0, 5.0][k]
+        pt['AMT'] = [25.0, 0.0, 10.0][k]
+        pt['RATE'] = [-2.0, 0.0, 4.0][k]
+        pts.append(pt)
+    return pts
+
+
+def _compare_models(m1, m2):
+    """-> list of (what, detail): m2 (read back from generated code) must denote the same model"""
+    out = []
+    p1 = {p.name: (p.init, p.lower, p.upper, p.fix) for p in m1.parameters}
+    p2 = {p.name: (p.init, p.lower, p.upper, p.fix) for p in m2.parameters}
+    if set(p1) != set(p2):
+        out.append(('params', f'parameter names differ: only in model {sorted(set(p1) - set(p2))}, only '
+                    f'in code {sorted(set(p2) - set(p1))}'))
+    else:
+        for k in p1:
+            a, b = p1[k], p2[k]
+            if not (close(a[0], b[0], 1e-6) and a[1] == b[1] and a[2] == b[2] and a[3] == b[3]):
+                out.append(('params', f'{k}: model (init, lower, upper, fix)={a}, code {b}'))
+                break
+    r1 = sorted((tuple(d.names), str(d.mean), str(d.variance)) for d in m1.random_variables)
+    r2 = sorted((tuple(d.names), str(d.mean), str(d.variance)) for d in m2.random_variables)
+    if r1 != r2:
+        out.append(('rvs', f'random variables: model {r1}, code {r2}'))
+    if out:
+        return out
+    c1 = m1.statements.ode_system
+    c2 = m2.statements.ode_system
+    n1 = len(c1.compartment_names) if c1 is not None else 0
+    n2 = len(c2.compartment_names) if c2 is not None else 0
+    if n1 != n2:
+        return [('flows', f'model has compartments {c1 and c1.compartment_names}, code '
+                 f'{c2 and c2.compartment_names}')]
+    best = None
+    pts = _points(m1, m2)
+    avals = [1.7 + 0.9 * i for i in range(n1)]
+    sigs1 = [_ir_eval_model(m1, pt, avals) for pt in pts]
+    for perm in itertools.permutations(range(n1)):
+        diffs = []
+        a2 = [None] * n1
+        for i in range(n1):
+            a2[perm[i]] = avals[i]
+        for pt, s1 in zip(pts, sigs1):
+            s2 = _ir_eval_model(m2, pt, a2)
+            diffs = _sig_diff(s1, s2, perm)
+            if diffs:
+                break
+        if best is None or len(diffs) < len(best):
+            best = diffs
+        if not diffs:
+            break
+    return best or []
+
+
+_RT_CLAUSE = {
+    'params': (FID_UPDATE_PARAMS, 'the generated code has the parameters of the model (name, initial '
+               'estimate, bounds, fixedness)'),
+    'rvs': (FID_UPDATE_RVS, 'the generated code has the random variables of the model (names, covariance '
+            'parameters)'),
+    'flows': (FID_UPDATE_ODE, 'the compartmental system read back from the generated code has numerically '
+              'the same flows as the model for some numbering of the compartments'),
+    'doses': (FID_UPDATE_ODE, 'the generated code and data set give every compartment the doses (bolus / '
+              'infusion rate / duration) of the model'),
+    'lag': (FID_UPDATE_ODE, 'the generated ALAGn gives every compartment the lag time of the model'),
+    'bio': (FID_UPDATE_ODE, 'the generated Fn gives every compartment the bioavailability of the model'),
+    'dvs': (FID_UPDATE_SOURCE, 'the dependent variables (Y) of the generated code have numerically the '
+            'values of the model for equal parameters, etas, epsilons, data and amounts'),
+}
+
+
+def _check_roundtrip_case(seq):
+    """-> (nontrivial, [(fid, clause, detail)])"""
+    import tempfile
+
+    from pharmpy.modeling import load_example_model, read_model, write_model
+
+    _speedup()
+    tr = _transformations()
+    model = load_example_model('pheno')
+    try:
+        for name in seq:
+            model = tr[name](model)
+    except Exception:
+        return (False, [])  # the sequence is not in the domain: a transformation did not succeed
+    tag = ' ; '.join(seq) or '(pheno unchanged)'
+    try:
+        with tempfile.TemporaryDirectory() as d:
+            path = os.path.join(d, 'run1.mod')
+            write_model(model, path, force=True)
+            code = open(path).read()
+            back = read_model(path)
+            back.dataset  # noqa: B018
+            diffs = _compare_models(model, back)
+    except Exception as exc:
+        import traceback
+
+        tb = traceback.extract_tb(exc.__traceback__)[-1]
+        return (True, [(FID_UPDATE_SOURCE, 'code generation, writing and reading back succeed for a model '
+                        'reached by successful transformations',
+                        f'{tag}: {type(exc).__name__}: {str(exc)[:150]} at {os.path.basename(tb.filename)}:{tb.lineno}')])
+    fails = []
+    seen = set()
+    for what, detail in diffs:
+        if what not in seen:
+            seen.add(what)
+            fid, clause = _RT_CLAUSE[what]
+            fails.append((fid, clause, f'{tag}: {detail}'))
+    del code
+    return (True, fails)
+
+
+# printer: expression -> NM-TRAN text -> expression ------------------------------------------------
+
+_PR_UN = ('neg', 'exp', 'log', 'sqrt')
+_PR_ATOMS = ('WGT>50', 'AGE<30', 'WGT==60', 'AGE!=20', 'WGT>=60', 'AGE<=20')
+
+
+def _pr_trees(depth):
+    leaves = [('leaf', o) for o in _OPERANDS]
+    if depth == 0:
+        return leaves
+    sub = _pr_trees(depth - 1)
+    return (leaves + [(u, a) for u in _PR_UN for a in sub]
+            + [(op, a, b) for op in _BIN for a in sub for b in sub])
+
+
+def _pr_build(t):
+    import sympy
+
+    k = t[0]
+    if k == 'leaf':
+        return sympy.Integer(2) if t[1] == '2' else sympy.Symbol(t[1])
+    if k == 'neg':
+        return -_pr_build(t[1])
+    if k in ('exp', 'log', 'sqrt'):
+        return getattr(sympy, k)(_pr_build(t[1]))
+    a, b = _pr_build(t[1]), _pr_build(t[2])
+    return {'add': lambda: a + b, 'sub': lambda: a - b, 'mul': lambda: a * b, 'div': lambda: a / b,
+            'pow': lambda: a**b}[k]()
+
+
+def _pr_atom(i):
+    import sympy
+
+    W, A = sympy.Symbol('WGT'), sympy.Symbol('AGE')
+    return [W > 50, A < 30, sympy.Eq(W, 60), sympy.Ne(A, 20), W >= 60, A <= 20][i]
+
+
+def _pr_cond(c):
+    import sympy
+
+    k = c[0]
+    at = [_pr_atom(i) for i in c[1:]]
+    if k == 'and':
+        return sympy.And(*at)
+    if k == 'or':
+        return sympy.Or(*at)
+    if k == 'and_or':
+        return sympy.And(sympy.Or(at[0], at[1]), at[2])
+    if k == 'or_and':
+        return sympy.Or(sympy.And(at[0], at[1]), at[2])
+    if k == 'not_and':
+        return sympy.Not(sympy.And(*at))
+    if k == 'not_or':
+        return sympy.Not(sympy.Or(*at))
+    if k == 'atom':
+        return at[0]
+    raise ValueError(k)
+
+
+def _pr_build_case(case):
+    """case -> sympy expression"""
+    import sympy
+
+    if case[0] == 'expr':
+        return _pr_build(case[1])
+    form, conds = case[1], [_pr_cond(c) for c in case[2]]
+    W, A = sympy.Symbol('WGT'), sympy.Symbol('AGE')
+    if form == 'else3':
+        return sympy.Piecewise((1, conds[0]), (3, True))
+    if form == 'else0':
+        return sympy.Piecewise((1, conds[0]), (0, True))
+    if form == 'noelse':
+        return sympy.Piecewise((W, conds[0]))
+    if form == 'two_else':
+        return sympy.Piecewise((W, conds[0]), (A, conds[1]), (2, True))
+    if form == 'two_noelse_expr':
+        return sympy.Piecewise((W + 1, conds[0]), (A * 2, conds[1]))
+    raise ValueError(form)
+
+
+def gen_print_cases(tier):
+    import sympy
+
+    cases = []
+    seen = set()
+    for t in _pr_trees(2):
+        try:
+            e = _pr_build(t)
+        except Exception:
+            continue
+        if e.has(sympy.zoo, sympy.nan, sympy.oo, -sympy.oo):
+            continue
+        key = sympy.srepr(e)
+        if key not in seen:
+            seen.add(key)
+            cases.append(('expr', t))
+    nexpr = len(cases)
+    idx = range(len(_PR_ATOMS))
+    conds = [('atom', i) for i in idx]
+    conds += [(k, i, j) for k in ('and', 'or', 'not_and', 'not_or') for i, j in itertools.combinations(idx, 2)]
+    conds += [(k, i, j, l) for k in ('and', 'or') for i, j, l in itertools.combinations(idx, 3)]
+    trip = list(itertools.combinations(idx, 3)) if tier == 'thorough' else list(itertools.combinations(range(4), 3))
+    for i, j, l in trip:
+        for a, b, c in ((i, j, l), (i, l, j), (j, l, i)):
+            conds += [('and_or', a, b, c), ('or_and', a, b, c)]
+    for c in conds:
+        for form in ('else3', 'else0', 'noelse'):
+            cases.append(('pw', form, [c]))
+    two = [c for c in conds if c[0] in ('atom', 'and', 'or') and len(c) <= 3][: (60 if tier == 'thorough' else 24)]
+    for c1 in two[:8]:
+        for c2 in two:
+            if c1 != c2:
+                cases.append(('pw', 'two_else', [c1, c2]))
+                cases.append(('pw', 'two_noelse_expr', [c1, c2]))
+    return cases, nexpr
+
+
+def _extract_pred(code):
+    lines = code.split('\n')
+    out = []
+    inside = False
+    for ln in lines:
+        if ln.startswith('$'):
+            inside = ln.upper().startswith('$PRED')
+            continue
+        if inside:
+            out.append(ln)
+    return out
+
+
+def _check_print_batch(cases):
+    """-> list of (index, nontrivial, [(fid, clause, detail)])"""
+    import sympy
+    from pharmpy.model import Assignment, Statements
+    from pharmpy.modeling import read_model_from_string
+
+    if _IR_REL is None:
+        _init_ir_tables()
+    _speedup()
+    base = read_model_from_string(_PRED_TEMPLATE % 'VZ = WGT')
+    exprs = [_pr_build_case(c) for c in cases]
+    new = [Assignment.create(sympy.Symbol(f'X{i}'), e) for i, e in enumerate(exprs)]
+    kindtxt = lambda c: 'arithmetic expression' if c[0] == 'expr' else 'Piecewise'  # noqa: E731
+    fid_of = lambda c: FID_PRINTER if c[0] == 'expr' else FID_PIECEWISE  # noqa: E731
+    try:
+        model = base.replace(statements=Statements(new) + base.statements)
+        model = model.update_source()
+        code = model.code
+    except Exception as exc:
+        if len(cases) == 1:
+            return [(0, True, [(fid_of(cases[0]), f'{kindtxt(cases[0])}: NONMEM code is generated without error',
+                                f'X = {exprs[0]}: {type(exc).__name__}: {str(exc)[:150]}')])]
+        h = len(cases) // 2
+        a = _check_print_batch(cases[:h])
+        b = _check_print_batch(cases[h:])
+        return a + [(i + h, nt, fl) for i, nt, fl in b]
+    pred = _extract_pred(code)
+    # (i) meaning of the printed text under NM-TRAN rules (reference interpreter)
+    ref_envs = None
+    ref_err = None
+    try:
+        prog = ref_parse_program(pred)
+        ref_envs = []
+        for point in GRID:
+            env = dict(point)
+            env.update({'THETA': 0.0})
+            try:
+                ref_run([st for st in prog if not (st[0] == 'assign' and st[1] == 'Y')], env)
+            except (RefUndefined, RefDomain) as exc:
+                env['__error__'] = repr(exc)
+            ref_envs.append(env)
+    except RefSyntax as exc:
+        ref_err = str(exc)
+    if (ref_err or any('__error__' in e for e in (ref_envs or []))) and len(cases) > 1:
+        # isolate: one statement per model
+        out = []
+        for i, c in enumerate(cases):
+            r = _check_print_batch([c])
+            out.append((i, r[0][1], r[0][2]))
+        return out
+    # (ii) reading the generated code back
+    back_envs = None
+    back_err = None
+    try:
+        back = read_model_from_string(code)
+        sts = list(back.statements)
+        back_envs = [ir_run(sts, dict(point)) for point in GRID]
+    except Exception as exc:
+        back_err = f'{type(exc).__name__}: {str(exc)[:120]}'
+        if len(cases) > 1:
+            out = []
+            for i, c in enumerate(cases):
+                r = _check_print_batch([c])
+                out.append((i, r[0][1], r[0][2]))
+            return out
+    out = []
+    for i, (c, e) in enumerate(zip(cases, exprs)):
+        name = f'X{i}'
+        fails = []
+        nontrivial = False
+        text = ' | '.join(ln.strip() for ln in pred if re.search(rf'\b{name}\b', ln))
+        for gi, point in enumerate(GRID):
+            try:
+                want = ir_eval(e, dict(point))
+                if isinstance(want, bool):
+                    want = float(want)
+            except IRUndefined:
+                continue
+            nontrivial = True
+            at = f'at WGT={point["WGT"]:g} AGE={point["AGE"]:g}'
+            if ref_err is not None:
+                fails.append((fid_of(c), f'{kindtxt(c)}: the generated text is valid NM-TRAN abbreviated code',
+                              f'X = {e} is printed as {text!r}: {ref_err}'))
+            else:
+                env = ref_envs[gi]
+                got = env.get(name)
+                if '__error__' in env and got is None:
+                    fails.append((fid_of(c), f'{kindtxt(c)}: the generated text means, under NM-TRAN rules, the value of the expression',
+                                  f'{at}: X = {e} has value {want:.12g}; printed as {text!r} which NM-TRAN cannot evaluate ({env["__error__"]})'))
+                elif got is None and want != 0 or got is not None and not close(got, want):
+                    fails.append((fid_of(c), f'{kindtxt(c)}: the generated text means, under NM-TRAN rules, the value of the expression',
+                                  f'{at}: X = {e} has value {want:.12g}; printed as {text!r} which NM-TRAN evaluates to {got}'))
+            if back_err is not None:
+                fails.append((FID_UPDATE_STATEMENTS, f'{kindtxt(c)}: the generated code is read back without error',
+                              f'X = {e} printed as {text!r}: {back_err}'))
+            else:
+                got = back_envs[gi].get(name)
+                if got is None and want != 0 or got is not None and not close(got, want):
+                    fails.append((FID_UPDATE_STATEMENTS, f'{kindtxt(c)}: reading the generated code back gives a statement with the value of the original expression',
+                                  f'{at}: X = {e} has value {want:.12g}; printed as {text!r}, read back value {got}'))
+            if fails:
+                break
+        seen = set()
+        uniq = []
+        for f in fails:
+            if f[1] not in seen:
+                seen.add(f[1])
+                uniq.append(f)
+        out.append((i, nontrivial, uniq))
+    return out
+
+
+def bounded_codegen_roundtrip(tier='quick'):
+    import multiprocessing as mp
+
+    rt_cases = gen_roundtrip_cases(tier)
+    pr_cases, nexpr = gen_print_cases(tier)
+    batch = 40
+    pr_jobs = [pr_cases[i : i + batch] for i in range(0, len(pr_cases), batch)]
+    ctx = mp.get_context('fork')
+    with ctx.Pool(NPROC, initializer=_pool_init) as pool:
+        rt_async = pool.map_async(_check_roundtrip_case, rt_cases, chunksize=1)
+        pr_async = pool.map_async(_check_print_batch, pr_jobs, chunksize=1)
+        rt_res = rt_async.get()
+        pr_res = pr_async.get()
+    fails = {}
+    nontrivial = 0
+    for seq, (nt, fl) in zip(rt_cases, rt_res):
+        nontrivial += bool(nt)
+        for fid, clause, detail in fl:
+            key = (fid, clause)
+            size = (len(seq), len(' '.join(seq)))
+            if key not in fails or size < fails[key]['_size']:
+                fails[key] = {'fid': fid, 'clause': clause, 'detail': detail,
+                              'case': {'kind': 'roundtrip', 'transformations': seq, 'clause': clause},
+                              'replay_fn': 'bounded_codegen_roundtrip_replay', '_size': size}
+    for job, res in zip(pr_jobs, pr_res):
+        for i, nt, fl in res:
+            nontrivial += bool(nt)
+            for fid, clause, detail in fl:
+                key = (fid, clause)
+                size = (1, len(str(job[i])))
+                if key not in fails or size < fails[key]['_size']:
+                    fails[key] = {'fid': fid, 'clause': clause, 'detail': detail,
+                                  'case': {'kind': 'print', 'case': job[i], 'clause': clause},
+                                  'replay_fn': 'bounded_codegen_roundtrip_replay', '_size': size}
+    for f in fails.values():
+        f.pop('_size')
+    ntr = len(_transformations())
+    return {
+        'cases': len(rt_cases) + len(pr_cases),
+        'nontrivial': nontrivial,
+        'bound': (
+            f'pheno example model and all models reached by <={2 if tier == "thorough" else 1} of {ntr} structural '
+            f'transformations (absorption, elimination, peripheral/transit compartments, lag time, '
+            f'bioavailability, ODE solver) [{len(rt_cases)}], written to disk and read back, compared '
+            f'numerically at 3 points over all compartment numberings; printer: all {nexpr} distinct sympy '
+            f'expressions from trees of depth <=2 over + - * / ** unary- exp log sqrt with operands WGT, AGE, '
+            f'2, and {len(pr_cases) - nexpr} Piecewise statements (5 shapes) whose conditions are atoms, And/Or '
+            f'of 2-3 atoms, Not(And/Or), And(Or(..),..), Or(And(..),..) over 6 relational atoms; printed text '
+            f'evaluated by the NM-TRAN reference interpreter and read back, on WGT in {{40,60,80}} x AGE in {{20,50}}'),
+        'samples': [str(rt_cases[1]), str(pr_cases[nexpr // 2]), str(pr_cases[-1])],
+        'fails': sorted(fails.values(), key=lambda f: (f['fid'], f['clause'])),
+    }
+
+
+def _tuplify(x):
+    return tuple(_tuplify(y) for y in x) if isinstance(x, list) else x
+
+
+def bounded_codegen_roundtrip_replay(rp):
+    c = rp['case']
+    if c['kind'] == 'roundtrip':
+        if _IR_REL is None:
+            _init_ir_tables()
+        _, fl = _check_roundtrip_case(list(c['transformations']))
+    else:
+        case = _tuplify(c['case'])
+        if case[0] == 'pw':
+            case = (case[0], case[1], list(case[2]))
+        fl = _check_print_batch([case])[0][2]
+    fl = [f for f in fl if f[1] == c.get('clause', f[1])]
+    if fl:
+        return (False, fl[0][2])
     return (True, 'ok')
